@@ -269,15 +269,39 @@ func runC19(c *Ctx) {
 			continue
 		}
 		lv := li.LV[acc]
+		// the position the next value goes to / the accumulated result: RecvQueued: the result slice itself;
+		// RecvQueuedFull: Pos = lv + k, taken from the store buf[Pos] (k = 1 for a `for index := range buf` loop)
+		pos := ToPoly(lv)
+		if s.full {
+			buf := paramOf(fi, 1)
+			for _, p := range li.Back {
+				for i := range p.Events {
+					e := &p.Events[i]
+					if e.Kind == "store" && e.Addr.Op == "iaddr" && e.Addr.Args[0].Key() == buf.Key() {
+						if _, isC := ToPoly(e.Addr.Args[1]).Add(ToPoly(lv), -1).IsConst(); isC {
+							pos = ToPoly(e.Addr.Args[1])
+						}
+					}
+				}
+			}
+		}
+		isPos := func(t *Term) bool {
+			if s.full {
+				return isIntegerType(t.Typ) && ToPoly(t).Equal(pos) || ToPoly(t).Equal(pos)
+			}
+			return t.Key() == lv.Key()
+		}
 		// bound
 		boundOK := false
 		if len(li.Back) > 0 && len(li.Back[0].Conds) > 0 {
 			r := li.Back[0].Conds[0].Rel()
-			if r.B != nil && r.Op == "<" {
+			if pl, kind, isInt := r.IntNorm(); isInt && kind == ">" {
 				if s.full {
-					boundOK = r.A.Key() == lv.Key() && isLenOf(r.B, paramOf(fi, 1))
+					lenB := ToPoly(&Term{Op: "builtin", Sym: "len", Args: []*Term{paramOf(fi, 1)}})
+					boundOK = pl.Equal(lenB.Add(pos, -1))
 				} else {
-					boundOK = isLenOf(r.A, lv) && isParam(r.B, 1)
+					lenR := ToPoly(&Term{Op: "builtin", Sym: "len", Args: []*Term{lv}})
+					boundOK = pl.Equal(ToPoly(paramOf(fi, 1)).Add(lenR, -1))
 				}
 			}
 		}
@@ -286,8 +310,9 @@ func runC19(c *Ctx) {
 		}
 		init := li.Init[acc]
 		if s.full {
-			if init == nil || !init.IsConst("0") {
-				okNB, whyN = false, "index does not start at 0"
+			k := pos.Add(ToPoly(lv), -1)
+			if init == nil || !ToPoly(init).Add(k, 1).Equal(polyConst(0)) {
+				okNB, whyN = false, "the first position is not 0"
 			}
 		} else if init == nil || !(init.IsNil() || (init.Op == "mkslice" && init.Args[0].IsConst("0"))) {
 			okNB, whyN = false, "result does not start empty"
@@ -343,6 +368,15 @@ func runC19(c *Ctx) {
 					}
 				}
 			}
+			returnsPos := func() bool {
+				if p.End != EndReturn || len(p.Rets) != 1 || len(stores) != 0 {
+					return false
+				}
+				if isPos(p.Rets[0]) {
+					return true
+				}
+				return false
+			}
 			switch {
 			case received && okEdge == "true":
 				// must accumulate exactly this value and continue
@@ -354,7 +388,7 @@ func runC19(c *Ctx) {
 				if s.full {
 					buf := paramOf(fi, 1)
 					good := len(stores) == 1 && stores[0].Addr.Op == "iaddr" && stores[0].Addr.Args[0].Key() == buf.Key() &&
-						stores[0].Addr.Args[1].Key() == lv.Key() && stores[0].Val.Key() == rv.Key() &&
+						ToPoly(stores[0].Addr.Args[1]).Equal(pos) && stores[0].Val.Key() == rv.Key() &&
 						ToPoly(nx).Equal(ToPoly(lv).Add(polyConst(1), 1))
 					if !good {
 						okNB, whyN = false, "the received value is not stored at buf[index] with index advancing by one"
@@ -377,7 +411,7 @@ func runC19(c *Ctx) {
 					}
 				}
 			case received && okEdge == "false":
-				if p.End != EndReturn || len(p.Rets) != 1 || p.Rets[0].Key() != lv.Key() || len(stores) != 0 {
+				if !returnsPos() {
 					okClosed, whyC = false, "on a closed channel the function does not return what it has, unchanged"
 				}
 			case received:
@@ -388,7 +422,12 @@ func runC19(c *Ctx) {
 				}
 			default:
 				// nothing received on this path: default arm or limit reached -> return the accumulated result
-				if p.End != EndReturn || len(p.Rets) != 1 || p.Rets[0].Key() != lv.Key() || len(stores) != 0 {
+				good := returnsPos()
+				if !good && s.full && p.End == EndReturn && len(p.Rets) == 1 && len(stores) == 0 && len(arms) == 0 && isLenOf(p.Rets[0], paramOf(fi, 1)) {
+					// the loop ran to the end of buf: position == len(buf)
+					good = true
+				}
+				if !good {
 					okNB, whyN = false, "a path that received nothing does not return the accumulated result unchanged: "+p.CondString()
 				}
 			}
